@@ -20,26 +20,31 @@ type blKind struct {
 	name string
 	cap  uint64
 	mk   func() (*backlog.Backlog, func())
+	// fault: the owner closes the backing file behind the backlog's back (file backend only; set by mk)
+	fault func()
 }
 
-func drawBacklog(t *rapid.T, allowFile bool) blKind {
+func drawBacklog(t *rapid.T, allowFile bool) *blKind {
 	if allowFile && rapid.IntRange(0, 11).Draw(t, "file?") == 0 {
 		units := rapid.SampledFrom([]int{1, 1, 3}).Draw(t, "funits")
 		req := units*backlog.FileSizeAlign - rapid.SampledFrom([]int{0, 1, 4095}).Draw(t, "fless")
-		return blKind{"file", uint64(units * backlog.FileSizeAlign), func() (*backlog.Backlog, func()) {
+		bk := &blKind{name: "file", cap: uint64(units * backlog.FileSizeAlign)}
+		bk.mk = func() (*backlog.Backlog, func()) {
 			f, err := os.CreateTemp("", "verif-backlog-*")
 			if err != nil {
 				panic(err)
 			}
+			bk.fault = func() { f.Close() }
 			return backlog.NewFileBacklog(req, f), func() { f.Close(); os.Remove(f.Name()) }
-		}}
+		}
+		return bk
 	}
 	units := rapid.SampledFrom([]int{1, 1, 2, 3, 3, 5}).Draw(t, "units")
 	req := units*backlog.BuffSizeAlign - rapid.SampledFrom([]int{0, 0, 1, 4095}).Draw(t, "less")
 	if req < 1 {
 		req = 1
 	}
-	return blKind{"mem", uint64(units * backlog.BuffSizeAlign), func() (*backlog.Backlog, func()) { return backlog.NewSize(req), func() {} }}
+	return &blKind{name: "mem", cap: uint64(units * backlog.BuffSizeAlign), mk: func() (*backlog.Backlog, func()) { return backlog.NewSize(req), func() {} }}
 }
 
 // offsetAround draws a read offset around the interesting positions.
@@ -227,7 +232,12 @@ func c18Sequential(t *rapid.T) {
 
 // c18Waiters: readers blocked at the write position are all woken by a write (with the data) or by Close (with an error).
 func c18Waiters(t *rapid.T) {
-	bk := drawBacklog(t, rapid.IntRange(0, 19).Draw(t, "allowfile") == 0)
+	// one case in six asks for the file backend outright (its close path can fail, see ownerClosedFile)
+	wantFile := rapid.IntRange(0, 5).Draw(t, "wantfile") == 0
+	bk := drawBacklog(t, wantFile)
+	for i := 0; wantFile && bk.name != "file" && i < 40; i++ {
+		bk = drawBacklog(t, true)
+	}
 	bl, cleanup := bk.mk()
 	defer cleanup()
 	pre := rapid.IntRange(0, int(bk.cap)*2+7).Draw(t, "pre")
@@ -287,6 +297,11 @@ func c18Waiters(t *rapid.T) {
 		fillStream(d, wpos)
 		bl.Write(d)
 	} else {
+		if bk.fault != nil && rapid.Bool().Draw(t, "ownerClosedFile") {
+			// fault: the file is already closed, so the truncation inside Close fails; the backlog is closed all the same
+			bk.fault()
+			event = "close-after-file-closed"
+		}
 		bl.Close()
 	}
 	done := make(chan struct{})
